@@ -1323,17 +1323,27 @@ func c20WrapLosesLocation(c *Ctx, r *RuleResult) {
 				if !ok {
 					return true
 				}
-				g := call.Call.StaticCallee()
-				if g == nil {
-					return true
-				}
-				if !p.inModule(g) || len(g.Blocks) == 0 {
-					return false // the standard library returns plain errors
-				}
-				for _, ret := range returnsOf(g) {
-					vals := returnValues(ret)
-					if x.Index < len(vals) && may(vals[x.Index], d+1) {
+				gs := []*ssa.Function{call.Call.StaticCallee()}
+				if gs[0] == nil {
+					// a function chosen among known ones (a table of evaluators)
+					var okC bool
+					if call.Call.IsInvoke() {
 						return true
+					}
+					gs, okC = funcChoice(call.Call.Value, 0)
+					if !okC || len(gs) == 0 {
+						return true
+					}
+				}
+				for _, g := range gs {
+					if !p.inModule(g) || len(g.Blocks) == 0 {
+						continue // the standard library returns plain errors
+					}
+					for _, ret := range returnsOf(g) {
+						vals := returnValues(ret)
+						if x.Index < len(vals) && may(vals[x.Index], d+1) {
+							return true
+						}
 					}
 				}
 				return false
